@@ -346,6 +346,16 @@ pub fn c08(g: &mut G) {
         let kv = values(keys, i % VALUE_PATTERNS, &mut g.rng);
         let calls = ins_calls(&kv);
         g.emit(format!("# set {}", label));
+        if label.starts_with("dense") {
+            // more keys than bytes (complete tries share every suffix): as a set and
+            // as a constant-valued map
+            let adds: Vec<Call> = keys.iter().map(|k| Call::Add(k.clone())).collect();
+            g.emit(build_line("set", 0, GEOMS[6], "seq", &adds));
+            g.emit("verify".into());
+            let kv0: Kv = keys.iter().map(|k| (k.clone(), 0)).collect();
+            g.emit(build_line("map", 0, GEOMS[6], "seq", &ins_calls(&kv0)));
+            g.emit("verify".into());
+        }
         g.emit(build_line("raw", 0, GEOMS[i % 7], "seq", &calls));
         g.emit("verify".into());
         let bytes = match crate::sink::vec_build(0, &calls) {
